@@ -131,6 +131,41 @@ def run(ctx: Ctx):
            f"padded kernel: {ft} reduce {rt}; packed kernel: {fp} reduce {rp}; both must log-softmax the scores, mask "
            f"out-of-vocabulary positions by the same two comparisons, zero the index before the gather, fill with the "
            f"neutral element 0.0 and sum", rel, kt.line, sample=dict(padded=ft, packed=fp))
+    # the out-of-vocabulary bound is the extent of the class axis: the dimension the scores are normalised over / gathered along
+    for kf in (kt, kp):
+        rdk = ReachingDefs(kf.node)
+        gd = sd = None
+        bnd = []
+        for c in own_calls(kf.node):
+            nm = call_name(c).split(".")[-1]
+            if nm == "gather" and isinstance(c.func, ast.Attribute) and c.args and isinstance(c.args[0], (ast.Constant, ast.UnaryOp)):
+                gd = u(c.args[0])
+            if nm == "log_softmax":
+                a = c.args[-1] if c.args else None
+                sd = u(a) if a is not None else None
+            if nm == "ge" and isinstance(c.func, ast.Attribute) and len(c.args) == 1:
+                bnd.append(c.args[0])
+        for n_ in own_nodes(kf.node):
+            if isinstance(n_, ast.Compare) and len(n_.ops) == 1 and isinstance(n_.ops[0], (ast.GtE, ast.Lt)) \
+                    and isinstance(n_.comparators[0], ast.Name) and not isinstance(n_.left, ast.Constant) \
+                    and any(isinstance(d.value, ast.Subscript) and isinstance(d.value.value, ast.Attribute) and d.value.value.attr == "shape"
+                            for d in rdk.defs_of(n_.comparators[0])) and isinstance(n_.ops[0], ast.GtE):
+                bnd.append(n_.comparators[0])
+        dims = set()
+        for b_ in bnd:
+            vs = [d.value for d in rdk.defs_of(b_)] if isinstance(b_, ast.Name) else [b_]
+            for v_ in vs:
+                if isinstance(v_, ast.Subscript) and isinstance(v_.value, ast.Attribute) and v_.value.attr == "shape":
+                    dims.add(u(v_.slice))
+                elif isinstance(v_, ast.Call) and isinstance(v_.func, ast.Attribute) and v_.func.attr == "size" and len(v_.args) == 1:
+                    dims.add(u(v_.args[0]))
+                else:
+                    dims.add("?" + u(v_)[:30] if v_ is not None else "?")
+        ok = bool(dims) and dims <= {gd, sd} - {None}
+        col.ob("G12", "S2", f"{rel}::{kf.qualname}::oov-bound-is-the-class-axis-extent", ok,
+               f"tokens are out of vocabulary when >= the extent of dimension {sorted(dims)} of the scores, but the scores are "
+               f"normalised over dimension {sd} and gathered along {gd}: valid tokens are dropped (or invalid ones index the "
+               f"gather) whenever the two extents differ", rel, kf.line, sample=dict(bound_dims=sorted(dims), gather=gd, softmax=sd))
     # eos handling of the padded kernel: length to the first eos, plus one (eos included)
     lens = [n for n in own_nodes(kt.node) if isinstance(n, ast.Assign) and isinstance(n.value, ast.BinOp) and "_lens_from_eos" in u(n.value)]
     okl = len(lens) == 1 and u(lens[0].value) == "_lens_from_eos(hyp, eos, dim) + 1"
@@ -448,6 +483,7 @@ def _log_prob_input_contract(ctx: Ctx, dist, lp, rel: str):
 def _mutants():
     from selftest.mutate import Mutant as M
     _extra = [
+        M("packed-vocab-from-steps-axis", "_decoding.py", "num_classes = logits.shape[1]\n    logits = torch.nn.functional.log_softmax(logits, -1)", "num_classes = logits.shape[0]\n    logits = torch.nn.functional.log_softmax(logits, -1)", "oov-bound-is-the-class-axis-extent"),
         M("finished-walk-cleared-by-another-mask", "_decoding.py", "log_probs_t = log_probs_t.masked_fill(eos_mask.unsqueeze(1), -float('inf'))", "log_probs_t = log_probs_t.masked_fill((y_lens < 0).unsqueeze(1), -float('inf'))", "finished-path-cleared-under-its-own-mask"),
         M("value-not-broadcast", "_decoding.py", "value = value.expand(broadcast_shapes(value.shape[:-1], self.batch_shape) + value.shape[-1:])", "value = value", "value-broadcast-against-batch-shape"),
         M("history-fed-raw", "_decoding.py", "value = fill_after_eos(value, self.random_walk.eos, -1)", "value = value", "history-normalised-after-eos"),
